@@ -100,9 +100,32 @@ def resolution_positive(ctx, fi, pm, rule):
     whyu = 'cannot classify: midi_to_note_sequence does not read .resolution / has no return'
     ctx.ob(rule, fi, fn, False, whyu, construct=cons, unknown=whyu)
     return
+  # the object may come out of a module-level helper that already refuses a non-positive resolution: then every return of the
+  # helper that hands back a freshly decoded object (not the caller's own PrettyMIDI instance) must be unreachable with
+  # <returned>.resolution == -1
+  holder = obj.rsplit('.', 1)[0]
+  src = None
+  for st in U.walk_stmts(fn, into_nested=False):
+    if isinstance(st, ast.Assign) and len(st.targets) == 1 and norm_text(st.targets[0]) == holder and isinstance(st.value, ast.Call):
+      src = fi.module.functions.get(dotted(st.value.func) or '')
+  if src is not None:
+    hrets = [r for r in U.walk_stmts(src.node, into_nested=False) if isinstance(r, ast.Return) and r.value is not None]
+    verdicts = []
+    for r in hrets:
+      conds = [(U.expand_locals(src.node, t, at=r), p) for t, p in U.path_conditions(src.node, r)]
+      if any(p and isinstance(t, ast.Call) and dotted(t.func) == 'isinstance' for t, p in conds):
+        continue          # the caller's own object is handed back: not the byte-string path the property speaks of
+      rv = norm_text(r.value)
+      rvx = norm_text(U.expand_locals(src.node, r.value, at=r))
+      verdicts.append(scenario.tv_all(conds, scenario.subst_of([(rv + '.resolution', '-1'), (rvx + '.resolution', '-1')])) if conds else True)
+    if verdicts and all(v is False for v in verdicts):
+      ctx.ob(rule, src, src.node, True, '%s never returns a decoded object with resolution -1' % src.qualname, construct=cons)
+      return
   for r in rets:
     conds = [(U.expand_locals(fn, t, at=r), p) for t, p in U.path_conditions(fn, r)]
     objx = norm_text(U.expand_locals(fn, U.E(obj), at=r))      # the same object as the expanded conditions spell it
+    # only the conditions that read the resolution say anything about it
+    conds = [(t, p) for t, p in conds if any(norm_text(x) in (obj, objx) for x in ast.walk(t))]
     res = scenario.tv_all(conds, scenario.subst_of([(obj, '-1'), (objx, '-1')])) if conds else True
     if res is False:
       ctx.ob(rule, fi, r, True, 'the return is unreachable with %s == -1' % obj, construct=cons)
